@@ -495,14 +495,60 @@ def gen_malformed(rng):
 
 # ---------------------------------------------------------------------------------------------- run
 
+def reuse_campaign(ctx, n):
+    """The codec is a FUNCTION of the frame set it is given (the model is stateless): consecutive sends that wrap the SAME ndarray
+    object - a capture / drawing buffer refilled in place - must each round-trip to the pixels the buffer holds at that moment."""
+    np, cv2 = _libs()
+    from openfilter.filter_runtime.mq import MQ
+    from openfilter.filter_runtime.frame import Frame
+    res, rng = ctx.result, ctx.rng
+    if ctx.replay: cases = [ctx.replay['case']] if ctx.replay.get('case', {}).get('kind') == 'reuse' else []
+    else:
+        cases = [c for c in ctx.corpus if c.get('kind') == 'reuse']
+        for _ in range(n):
+            cases.append({'kind': 'reuse', 'fmt': rng.choice(['BGR', 'RGB', 'GRAY']), 'h': rng.randint(8, 40), 'w': rng.randint(8, 40),
+                          'steps': [{'level': rng.randrange(0, 256, 16), 'outs_jpg': rng.choice([True, True, False, None]), 'ro': rng.random() < 0.2,
+                                     'other_between': rng.random() < 0.2} for _ in range(rng.randint(2, 4))]})
+    for c in cases:
+        shape = (c['h'], c['w']) if c['fmt'] == 'GRAY' else (c['h'], c['w'], 3)
+        buf = np.zeros(shape, np.uint8)
+        ramp = np.linspace(0, 24, c['w']).astype(np.uint8)
+        viol = None
+        for k, st in enumerate(c['steps']):
+            buf.flags.writeable = True
+            buf[...] = st['level'] // 2 + (ramp[None, :] if c['fmt'] == 'GRAY' else ramp[None, :, None])    # a smooth picture, clearly different per level
+            if st['ro']: buf.flags.writeable = False
+            want = buf.copy()
+            try:
+                if st['other_between']: MQ.frames2topicmsgs({'x': Frame(np.full(shape, 200, np.uint8), {}, c['fmt'])}, True)
+                f = Frame(buf, {'n': k}, c['fmt'])
+                back = MQ.topicmsgs2frames(wire(MQ.frames2topicmsgs({'main': f}, st['outs_jpg'])))['main']
+                got = back.image
+            except Exception as e:
+                viol = ('exception:reuse:' + errname(e), f'send {k} of a reused buffer raised {type(e).__name__}: {str(e)[:100]}'); break
+            sent_jpg = bool(st['outs_jpg'])
+            if got.shape != want.shape or back.data != {'n': k}:
+                viol = ('reuse-shape', f'send {k}: shape/data {got.shape} {back.data}'); break
+            mad = float(np.abs(got.astype(np.int32) - want.astype(np.int32)).mean())
+            if (sent_jpg and mad > SMOOTH_TOL) or (not sent_jpg and mad != 0):
+                viol = ('frame-of-an-earlier-send', f'send {k} of a buffer refilled in place ({c["fmt"]} {c["h"]}x{c["w"]}, outs_jpg={st["outs_jpg"]}): received picture differs from the buffer by {mad:.1f} on average - it is not the frame that was sent'); break
+        buf.flags.writeable = True
+        res.note(c, True)
+        if viol: res.violations.append(Violation(viol[0], viol[1], c))
+        else: res.traces_validated += 1
+    res.extra['reused_buffer_sequences'] = len(cases)
+
+
 def run(ctx):
     logging.disable(logging.CRITICAL)
     res, rng = ctx.result, ctx.rng
+    reuse_campaign(ctx, 3000 if ctx.thorough else 300)
+    if ctx.replay and ctx.replay.get('case', {}).get('kind') == 'reuse': return
     if ctx.replay:
         cases = [ctx.replay['case']] if ctx.replay.get('case') else []
     else:
         n = 200000 if ctx.thorough else (15000 if ctx.escalate else 5000)
-        cases = [c['case'] if 'case' in c else c for c in ctx.corpus]
+        cases = [c['case'] if 'case' in c else c for c in ctx.corpus if (c.get('case') or c).get('kind') != 'reuse']
         for _ in range(n):
             cases.append(gen_malformed(rng) if rng.random() < 0.15 else gen_case(rng))
     dist = {'kinds': {}, 'fmt': {}, 'outs_jpg': {}, 'partlists': {}, 'enc': {}, 'topics': {}, 'sizeclass': {}, 'data': {}, 'layout': {}, 'malformed_outcome': {}, 'impl_errors': {}}
